@@ -1,15 +1,19 @@
 #!/bin/bash
 # usage: run_mutant.sh <seeded-name> <prop> [more props...]
-# applies /verif/seeded/<name>/patch.diff to /repo, runs the quick checks, reverts /repo.
+# applies /verif/seeded/<name>/patch.diff to a scratch worktree of /repo (never to /repo itself) and runs the quick
+# checks against that copy (VERIF_REPO development mode of verif.py); removes the worktree and its build output.
 name=$1; shift
-cd /repo && git diff --quiet || { echo "/repo is dirty"; exit 2; }
-git -C /repo apply /verif/seeded/$name/patch.diff || exit 2
+wt=/tmp/wt/run_$name
+git -C /repo worktree remove --force $wt >/dev/null 2>&1
+git -C /repo worktree add --detach $wt HEAD >/dev/null 2>&1 || exit 2
+git -C $wt apply /verif/seeded/$name/patch.diff || { git -C /repo worktree remove --force $wt; exit 2; }
 for p in "$@"; do
-  cd /verif && timeout 3000 python3 verif.py check $p --tier quick > /tmp/mut_${name}_$p.log 2>&1
+  cd /verif && VERIF_REPO=$wt timeout 3000 python3 verif.py check $p --tier quick > /tmp/mut_${name}_$p.log 2>&1
   rc=$?
   echo "$name $p exit=$rc $(grep -c '^VIOLATION' /tmp/mut_${name}_$p.log) violation lines"
   grep -A1 '^VIOLATION' /tmp/mut_${name}_$p.log | head -4
   grep 'TOOL-ERROR' /tmp/mut_${name}_$p.log | head -2 | cut -c1-300
 done
-git -C /repo checkout -- .
-git -C /repo status --short | head -3
+tag=$(python3 -c "import sys; r='$wt'; print('alt_' + ''.join(ch if ch.isalnum() else '_' for ch in r)[-40:])")
+rm -rf /verif/work/$tag
+git -C /repo worktree remove --force $wt
